@@ -315,3 +315,38 @@ Section TraceProofs.
     f_equal. apply map_ext. intro it. rewrite Evn. reflexivity.
   Qed.
 End TraceProofs.
+
+(* ------------------------------------------------------------------ *)
+(* the name a memory-write net is sorted by                             *)
+
+Theorem memwrite_sortname_enable_collides : exists we a d a' d' : name,
+  (a, d) <> (a', d') /\ memwrite_sortname_enable we a d = memwrite_sortname_enable we a' d'.
+Proof.
+  exists (nm "we/1W"), (nm "a0/2W"), (nm "d0/4W"), (nm "a1/2W"), (nm "d1/4W").
+  split. discriminate. reflexivity.
+Qed.
+
+Lemma split_at_space : forall a a' r r' : name,
+  no_space a = true -> no_space a' = true ->
+  (a ++ space :: r = a' ++ space :: r')%list -> a = a' /\ r = r'.
+Proof.
+  induction a as [|c a IH]; intros a' r r' Na Na' E; destruct a' as [|c' a'']; simpl in *.
+  - injection E as E. auto.
+  - injection E as E1 E2. subst c'. apply andb_prop in Na'. destruct Na' as [H _].
+    vm_compute in H. discriminate.
+  - injection E as E1 E2. subst c. apply andb_prop in Na. destruct Na as [H _].
+    vm_compute in H. discriminate.
+  - injection E as E1 E2. subst c'.
+    apply andb_prop in Na. destruct Na as [_ Na]. apply andb_prop in Na'. destruct Na' as [_ Na'].
+    destruct (IH a'' r r' Na Na' E2) as [Ea Er]. subst. auto.
+Qed.
+
+Theorem memwrite_sortname_all_injective : forall we a d we' a' d' : name,
+  no_space we = true -> no_space a = true -> no_space we' = true -> no_space a' = true ->
+  memwrite_sortname_all we a d = memwrite_sortname_all we' a' d' ->
+  we = we' /\ a = a' /\ d = d'.
+Proof.
+  unfold memwrite_sortname_all. intros we a d we' a' d' N1 N2 N3 N4 E.
+  destruct (split_at_space _ _ _ _ N1 N3 E) as [E1 E2].
+  destruct (split_at_space _ _ _ _ N2 N4 E2) as [E3 E4]. auto.
+Qed.
